@@ -625,6 +625,23 @@ func (r *c39run) checkAwait(cr *callRec, aw *awaitRec) {
 		return
 	}
 	r.sim.Probe("await-error")
+	// which rare paths were reached (coverage probes, not oracles)
+	switch msg := aw.err.Error(); {
+	case strings.Contains(msg, "client is closing"):
+		r.sim.Probe("path:call-rejected-while-shutting-down")
+	case strings.Contains(msg, "server is closing"):
+		r.sim.Probe("path:request-rejected-by-closing-peer")
+	case strings.Contains(msg, "context canceled"):
+		r.sim.Probe("path:handler-or-await-cancelled")
+	case strings.Contains(msg, "method not found"):
+		r.sim.Probe("path:method-not-found")
+	case strings.Contains(msg, "EOF"), strings.Contains(msg, "simnet:"):
+		r.sim.Probe("path:retired-by-transport-failure")
+	case strings.Contains(msg, "on purpose"):
+		r.sim.Probe("path:handler-error-relayed")
+	default:
+		r.sim.Probe("path:other-error")
+	}
 	if errors.Is(aw.err, context.Canceled) && aw.ctxCancelled {
 		return // the caller gave up waiting; the call itself is judged by later awaits
 	}
